@@ -95,7 +95,7 @@ pub fn end_info(r: &DuoRun) -> EndInfo {
             mark(x, "multiplexor handle dropped");
         }
         // the source of x failed (error or end-of-stream): the receive loop always notices
-        if matches!(l.d[1 - x].src, SrcMode::Eof) {
+        if l.src_ended_seen[x] {
             mark(x, "transport source ended");
         }
         if l.sink_err_seen[x] {
